@@ -227,6 +227,8 @@ impl RN for Dual {
             l3,
             Dual::new(0.9, vec![]),
             l5,
+            Dual::new(0.0, vec![s("y")]),
+            Dual::new(1.0, vec![s("x")]),
         ]
     }
     fn un(&self, op: u8, own: bool) -> Self {
@@ -279,6 +281,8 @@ impl RN for Pair {
             l3,
             Dual2::new(0.9, vec![]),
             l5,
+            Dual2::new(0.0, vec![s("y")]),
+            Dual2::new(1.0, vec![s("x")]),
         ];
         d2.into_iter().zip(d1).map(|(d2, d1)| Pair { d2, d1 }).collect()
     }
@@ -351,7 +355,9 @@ fn ref_leaf(i: u8, second: bool) -> RefDual {
             }
         }
         4 => RefDual::constant(0.9),
-        _ => RefDual::leaf(0.7, &[(1, 0.0), (0, 1.0)]),
+        5 => RefDual::leaf(0.7, &[(1, 0.0), (0, 1.0)]),
+        6 => RefDual::leaf(0.0, &[(1, 1.0)]),
+        _ => RefDual::leaf(1.0, &[(0, 1.0)]),
     }
 }
 
@@ -370,7 +376,9 @@ fn plain_leaf(i: u8, p: &[f64; 3], second: bool) -> f64 {
             v
         }
         4 => 0.9,
-        _ => p[0],
+        5 => p[0],
+        6 => p[1] - X0[1],
+        _ => p[0] - X0[0] + 1.0,
     }
 }
 
@@ -788,7 +796,7 @@ pub fn explore_programs<T: RN>(prop: &str, kfull: usize, kmax: usize, fd_level: 
         "candidate_programs_per_level": level_tasks,
         "in_domain_programs_kept_per_level": level_sizes,
         "reference_rules_fd_checked_components": fd_checked,
-        "leaves": ["x=0.7[x]", "y=1.3[y]", "w=-0.6[w]", "v=2.1[y,x] grad(2,-1)", "const 0.9 (no vars)", "x=0.7 on the Arc of v"],
+        "leaves": ["x=0.7[x]", "y=1.3[y]", "w=-0.6[w]", "v=2.1[y,x] grad(2,-1)", "const 0.9 (no vars)", "x=0.7 on the Arc of v", "0.0[y]", "1.0[x]"],
         "float_literals": LITS,
     });
     (total, bound)
